@@ -308,14 +308,17 @@ def aofWrite (F : Store β) (left : Nat) (p : List β) : Option (Store β) :=
 
 def tenMB : Int := 10 * 1024 * 1024
 
-/-- `preSync` (repaired: a copy under another run id is deleted, not relabelled) -/
+/-- adopt the leader's run id `lid` when the local copy is not known to continue it
+    (repaired: a copy held under another run id is deleted, not relabelled) -/
+def adopt (bk : Backend) (F : Store β) (lid : Id) : Store β :=
+  setRunId bk (if F.cur ≠ "" && F.cur ≠ lid then delRunId bk F F.cur else F) lid
+
+/-- `preSync` -/
 def preSync (bk : Backend) (F : Store β) (lid : Id) (loff : Int) : Store β × (Id × Int) :=
   let r := startPoint bk F lid
   let F1 := r.1
   let sp := r.2
-  if sp.1 = "?" || sp.1 = "" || sp.1 ≠ lid then
-    let F2 := if F1.cur ≠ "" && F1.cur ≠ lid then delRunId bk F1 F1.cur else F1
-    (setRunId bk F2 lid, (lid, loff))
+  if sp.1 = "?" || sp.1 = "" || sp.1 ≠ lid then (adopt bk F1 lid, (lid, loff))
   else
     let gap := loff - sp.2
     if gap > 0 then
@@ -323,17 +326,23 @@ def preSync (bk : Backend) (F : Store β) (lid : Id) (loff : Int) : Store β × 
       else (setRunId bk F1 lid, sp)
     else (F1, sp)
 
+/-- the receive half of `aofSync`: writer opened at `left` on the cache `F1`, bytes of the
+    delivered messages appended (`lost` trailing bytes dropped with the pipe) -/
+def aofRecv (F1 : Store β) (left : Nat) (ms : List (Msg β)) (fin : Fin) (budget lost : Nat) :
+    Out β :=
+  let q := aofLoop fin budget ms
+  let p := q.2.1.take (q.2.1.length - lost)
+  match aofWrite F1 left p with
+  | none => ⟨F1, [], .aof, .discont⟩
+  | some F2 => ⟨F2, q.1, .aof, q.2.2⟩
+
 /-- `aofSync` after the `META{aof}` message `m`; `ms` are the messages that follow -/
 def aofSync (bk : Backend) (F : Store β) (x : Id) (m : Msg β) (ms : List (Msg β)) (fin : Fin)
     (budget lost : Nat) : Out β :=
   let r := startPoint bk F x
   let sp := r.2
   let F1 := if m.offset > sp.2 && sp.1 ≠ "?" then setRunId bk (delRunId bk r.1 x) x else r.1
-  let q := aofLoop fin budget ms
-  let p := q.2.1.take (q.2.1.length - lost)
-  match aofWrite F1 m.offset.toNat p with
-  | none => ⟨F1, [], .aof, .discont⟩
-  | some F2 => ⟨F2, q.1, .aof, q.2.2⟩
+  aofRecv F1 m.offset.toNat ms fin budget lost
 
 /-- states 3,4,5 of `Run`: `metaSync`, then `rdbSync` + `StartPoint` + state 3 again, or
     `aofSync`. `fuel` bounds the number of `metaSync` rounds (each consumes a message,
